@@ -155,6 +155,7 @@ func checkC01(w *World, r *Report) {
 	}
 	r.Rule("C01.confine", "P2,P3,P4", "BANK.mint is reachable only from cfeminter's BeginBlock tree and BANK.burn only from cfedistributor's; no message, query, ValidateBasic, genesis, migration, upgrade or invariant entry point reaches either", 2)
 	r.Rule("C01.iface", "P8", "the expected-keeper interfaces of cfevesting and cfesignature contain no supply-changing or delegation method, and neither module imports a concrete bank keeper", 4)
+	r.Rule("C01.errprop", "P5", "= C05.errprop: on the vesting message trees a failed bank call ends the message with an error (a bank send that fails may have debited some denominations already: only the rollback of the whole message keeps balances and supply together; retrying or continuing after the failure does not)", 10)
 	r.Rule("C01.parties", "P6", "closed world: the accounts between which a cfevesting / cfesignature message moves coins are named by the message itself (addresses parsed from its fields) or are the module's own account - never an address obtained from another keeper, the store or the chain state", 4)
 	r.Rule("C01.moveonly", "P4", "every bank atom reachable from a cfevesting / cfesignature message is a move or a read, and module-name arguments of moves are the module's own constant", 5)
 	r.Rule("C01.mint1", "P5,P6", "in the minting routine: one mint per activation, not in a loop; the coins minted, the coins forwarded to the collector and the amount added to AmountMinted are the same value; module names are cfeminter -> collector; the collector passed in app.New is the distributor's main account; state is updated only on the success edges of mint and forward", 6)
@@ -312,6 +313,8 @@ func checkC01(w *World, r *Report) {
 		}
 	}
 
+	// ---------- C01.errprop ----------
+	shareRule(w, r, checkC05, "C05.errprop", "C01.errprop", nil)
 	// ---------- C01.parties ----------
 	for _, m := range []string{"cfevesting", "cfesignature"} {
 		rs := cg.Reach(ro.MSG[m])
